@@ -2,6 +2,7 @@ package main
 
 import (
 	"fmt"
+	"strconv"
 	"strings"
 
 	"github.com/z7zmey/php-parser/pkg/errors"
@@ -72,7 +73,9 @@ func errShape(c *core.Ctx, cs srcCase, errs []*errors.Error, atLex []int, lexTot
 			}
 		}
 		if p.StartPos < last {
-			c.Report("error order: an error arrives after one located later in the source ("+cl+")", mkWhat("%s in %q", errList(errs), src), cs)
+			// the locus is what the late error points at, not its wording (a rewording must not turn a recorded finding
+			// into a violation): the first word or punctuation character at its position
+			c.Report("error order: an error arrives after one located later in the source ("+verFamName(cs.Ver)+": it points at "+strconv.Quote(firstWord(src[p.StartPos:p.EndPos]))+")", mkWhat("%s in %q", errList(errs), src), cs)
 		}
 		if p.StartPos > last {
 			last = p.StartPos
@@ -107,6 +110,24 @@ func errShape(c *core.Ctx, cs srcCase, errs []*errors.Error, atLex []int, lexTot
 	}
 }
 
+func verFamName(ver string) string {
+	if strings.HasPrefix(ver, "5") {
+		return "php5"
+	}
+	return "php7"
+}
+
+// firstWord: the leading identifier (lower-cased) or the leading byte of a source span.
+func firstWord(b []byte) string {
+	n := 0
+	for n < len(b) && (b[n] == '_' || b[n] >= 'a' && b[n] <= 'z' || b[n] >= 'A' && b[n] <= 'Z') {
+		n++
+	}
+	if n == 0 && len(b) > 0 {
+		n = 1
+	}
+	return strings.ToLower(string(b[:n]))
+}
 
 // c06One: mode in cs.Aux — "invalid" (the program is known to be invalid), "valid" (known valid), "" unknown.
 func c06One(c *core.Ctx, cs srcCase) {
